@@ -245,6 +245,34 @@ pub fn run(ctx: &'static Ctx) -> (&'static str, Value, Vec<&'static str>) {
         containers.push((format!("chunk_intermediate#{k}"), rec.clone()));
         containers.push((format!("chunk_start#{k}"), volume(&VolHeader::basic(), &[rec])));
     }
+    // (3b) structurally valid but out-of-spec volumes: counts beyond every documented maximum
+    // (more than 720 radials in one sweep, more than 255 sweeps, 70 000 radials, empty records)
+    let mut s4b = Stats::new();
+    {
+        let mk = |runs: Vec<(u8, u16)>, per_record: usize, level: u32, moments: u8| {
+            let total: usize = runs.iter().map(|r| r.1 as usize).sum();
+            c01::Case { runs, splits: (1..total).filter(|k| per_record > 0 && k % per_record == 0).collect(), meta: Some((1, 0)), moments, gates: 2, vol: 0, level }
+        };
+        let extremes: Vec<c01::Case> = vec![
+            mk(vec![(1, 721)], 120, 0, 1),
+            mk(vec![(1, 721)], 0, 9, 1),
+            mk(vec![(1, 722)], 721, 9, 0),
+            mk(vec![(1, 900)], 120, 9, 1),
+            mk(vec![(1, 360), (1, 500)], 120, 9, 1),
+            mk(vec![(3, 1441)], 0, 0, 0),
+            mk(vec![(1, 40000), (1, 30000)], 5000, 9, 0),
+            mk((0..300).map(|i| (1 + (i % 2) as u8, 2u16)).collect(), 7, 9, 1),
+            mk((0..600).map(|i| ((i % 256) as u8, 1u16)).collect(), 0, 9, 0),
+        ];
+        for (i, c) in extremes.iter().enumerate() {
+            let bytes = c01::volume_bytes(c);
+            begin_case(CaseId { a: 6, b: i as u64, c: 0 });
+            check_bytes(ctx, &bytes, &format!("valid structure, out-of-spec counts #{i}: runs {:?}..", &c.runs[..c.runs.len().min(3)]), &mut s4b);
+            end_case();
+            s4b.nontrivial(format!("x{i}").as_bytes());
+            s4b.count("out_of_spec_valid_volumes", 1);
+        }
+    }
     let mut trunc_jobs: Vec<(usize, usize)> = Vec::new();
     for (ci, (_, b)) in containers.iter().enumerate() {
         let step = if thorough || b.len() < 1500 { 1 } else { 3 };
@@ -295,11 +323,11 @@ pub fn run(ctx: &'static Ctx) -> (&'static str, Value, Vec<&'static str>) {
             st
         })
         .reduce(Stats::new, Stats::merge);
-    let mut stats = s1.merge(s2).merge(s3).merge(s4).merge(s5);
+    let mut stats = s1.merge(s2).merge(s3).merge(s4).merge(s4b).merge(s5);
     stats.sample(3, || json!({"origin": "length 5 family 2 ('BZ' at 4..6)", "bytes_hex": hex(&family(5, 2))}));
     stats.sample(3, || json!({"origin": "volume truncated", "container": containers[0].0, "len": containers[0].1.len()}));
     let cov = stats.coverage(
-        "every length 0..=64 x 13 content families (zeros, AR2V header, 'BZ' at 4..6, size prefixes len-4/len-3/len+1/0x7FFFFFFF/negative/i32::MIN, header+prefix variants, ramp); all byte strings of length <=2; all strings of length 3..=6 (thorough 7) over {00,04,FF,A,R,2,B,Z}; every truncation point of 12 valid volumes and 8 valid chunks; every byte position x {00,FF,bit flips} of 8 small containers. Each input through File::{records,header,scan,Debug}, split_compressed_records, Record::{data,compressed,decompress,messages,Debug} (owned and borrowed), Chunk::{new,data,Debug} and the same operations on whatever the chunk / record list yields. Oracle: returns (no panic), terminates",
+        "every length 0..=64 x 13 content families (zeros, AR2V header, 'BZ' at 4..6, size prefixes len-4/len-3/len+1/0x7FFFFFFF/negative/i32::MIN, header+prefix variants, ramp); all byte strings of length <=2; all strings of length 3..=6 (thorough 7) over {00,04,FF,A,R,2,B,Z}; every truncation point of 12 valid volumes and 8 valid chunks; nine structurally valid volumes whose counts exceed every documented maximum (721..70 000 radials in a sweep, 300 and 600 sweeps, empty records); every byte position x {00,FF,bit flips} of 8 small containers. Each input through File::{records,header,scan,Debug}, split_compressed_records, Record::{data,compressed,decompress,messages,Debug} (owned and borrowed), Chunk::{new,data,Debug} and the same operations on whatever the chunk / record list yields. Oracle: returns (no panic), terminates",
         true,
         json!({"ops": OPS, "max_len": maxlen}),
     );
